@@ -3,3 +3,4 @@ pub mod det;
 pub mod report;
 pub mod sim;
 pub mod c09keys;
+pub mod sched;
